@@ -160,15 +160,15 @@ def check_reject(case, ctx):
 reject_cases = st.one_of(G.bad_token_formulas(), G.bad_bracket_formulas(), G.bad_charge_formulas())
 
 SUBCHECKS = [
-    SubCheck("valid", check_valid, strategy=G.formulas(max_depth=4, max_terms=6), quick=3000, thorough=0,
+    SubCheck("valid", check_valid, strategy=G.formulas(max_depth=4, max_terms=6), quick=4000, thorough=0,
              rule="G1 formulas, depth<=4, <=6 terms per level"),
-    SubCheck("valid_deep", check_valid, strategy=G.formulas(max_depth=8, max_terms=10, max_hydrates=3), quick=400, thorough=300000,
+    SubCheck("valid_deep", check_valid, strategy=G.formulas(max_depth=8, max_terms=10, max_hydrates=3), quick=600, thorough=40000,
              rule="G1 formulas, depth<=8, <=10 terms per level, <=3 hydrate parts"),
     SubCheck("elements", check_text, enumerate=enum_elements, rule="all 118 symbols alone/with count/grouped/charged/hydrate (exhaustive)"),
     SubCheck("pairs", check_text, enumerate=enum_pairs, exhaustive=lambda tier: tier == "thorough",
              rule="ordered symbol pairs XY and X2Y3: all 118^2 in thorough; in quick every pair X,Y with len(X)=1 and "
                   "X+lower(Y[0]) a symbol (e.g. C,O vs Co) plus a fixed spread"),
-    SubCheck("reject", check_reject, strategy=reject_cases, quick=2000, thorough=100000,
+    SubCheck("reject", check_reject, strategy=reject_cases, quick=3000, thorough=60000,
              rule="R1 non-element capitalised token inserted; R2 bracket deleted/mismatched/stray; R3 contradictory charge marks"),
 ]
-SUBCHECKS[0].thorough = 100000
+SUBCHECKS[0].thorough = 80000
